@@ -112,6 +112,23 @@ func Ident(tag byte, dir, idx, sz int) string {
 	return MsgIdent(MakeMsg(tag, dir, idx, sz))
 }
 
+// errDetail renders the detail messages of a status error ("" if none).
+func errDetail(err error) string {
+	st, ok := status.FromError(err)
+	if !ok || err == nil || err == io.EOF {
+		return ""
+	}
+	ds := st.Proto().GetDetails()
+	if len(ds) == 0 {
+		return ""
+	}
+	var parts []string
+	for _, d := range ds {
+		parts = append(parts, fmt.Sprintf("%s:%x", d.TypeUrl, d.Value))
+	}
+	return "details=[" + strings.Join(parts, ",") + "]"
+}
+
 func errFields(err error) (string, string) {
 	if err == nil {
 		return "", "OK"
@@ -196,6 +213,9 @@ func (ts *TestServer) script(ctx context.Context, method string) *HandlerScript 
 	}
 	ts.W.mu.Lock()
 	hs := ts.W.Scripts[id]
+	if hs == nil {
+		hs = ts.W.Scripts["*"]
+	}
 	n := 0
 	for _, e := range ts.W.Events {
 		if e.Op == "invoked" {
@@ -406,7 +426,10 @@ func (w *World) RunCall(conn grpc.ClientConnInterface, spec *CallSpec) {
 	if spec.CtxHook != nil {
 		ctx = spec.CtxHook(ctx)
 	}
-	md := spec.MD.Copy()
+	var md metadata.MD
+	if spec.MD != nil {
+		md = spec.MD.Copy()
+	}
 	if !spec.NoScriptKey {
 		if md == nil {
 			md = metadata.MD{}
@@ -468,7 +491,7 @@ func (w *World) RunCall(conn grpc.ClientConnInterface, spec *CallSpec) {
 			w.Log(Event{Actor: actor, Op: "recv-begin", Idx: 0})
 			err := conn.Invoke(ctx, full, req, resp, opts...)
 			em, ec := errFields(err)
-			d := ""
+			d := errDetail(err)
 			if err == nil {
 				d = "m=" + MsgIdent(resp)
 			}
@@ -501,7 +524,7 @@ func (w *World) RunCall(conn grpc.ClientConnInterface, spec *CallSpec) {
 				w.Log(Event{Actor: actor, Op: "recv-begin", Idx: nRecv})
 				err := cs.RecvMsg(m)
 				em, ec := errFields(err)
-				d := ""
+				d := errDetail(err)
 				if err == nil {
 					d = "m=" + MsgIdent(m)
 				}
